@@ -217,6 +217,12 @@ class Builder:
                 lk.acquire()
                 op.append(self.tag(lk, "m"))
                 st.push(lk.__exit__)
+            elif name == "callback_probe":
+                # a plain synchronous callback that takes the observation: it runs while the stack's __aexit__ is EXECUTING
+                def probe_cb(b=self):
+                    b.probe_result = b.on_probe()
+                op.append(self.tag(probe_cb, "w"))
+                st.callback(probe_cb)
             elif name == "push_builtin_fn":
                 # a builtin function: it has a __self__ (its module) without being bound to any manager
                 op.append(self.ids.get(id(print)) or self.tag(print, "f"))     # (the same object every time)
@@ -233,7 +239,7 @@ class Builder:
         return st
 
 
-METHOD = {"enter_context": "enter_context", "push_mgr": "enter_context", "push_fn": "push", "push_bound": "push", "push_builtin_bound": "push", "push_builtin_fn": "push",
+METHOD = {"callback_probe": "callback", "enter_context": "enter_context", "push_mgr": "enter_context", "push_fn": "push", "push_bound": "push", "push_builtin_bound": "push", "push_builtin_fn": "push",
           "callback": "callback",
           "enter_async_context": "enter_async_context", "push_async_exit_mgr": "enter_async_context",
           "push_async_exit_fn": "push_async_exit", "push_async_callback": "push_async_callback"}
@@ -323,7 +329,20 @@ class C09(PropCheck):
                 node["ops"].append(["enter_async_context", {"kind": "plain", "async": True, "falsy": False, "block": True}])
                 node["stack_exiting"] = True
                 node["exit_by"] = rng.choice(["fallthrough", "exception"])
-            out.append({"k": "tree", "node": node})
+            case = {"k": "tree", "node": node}
+            if not node.get("exiting") and not node.get("stack_exiting") and rng.random() < 0.3:
+                # the same unfolding when the bytecode analysis is unavailable (gc-referents fallback): which managers are active in
+                # each generator frame is then read off the generator object
+                case["mode"] = "referents"
+            out.append(case)
+            if node["kind"] == "stack" and node["async"] and not node.get("stack_exiting") and len(out) % 3 == 0:
+                # observed from a synchronous callback that the exiting stack is running: the `async with` is exiting while its
+                # __aexit__ is executing, not suspended
+                n2 = json.loads(json.dumps(node))
+                n2["ops"].append(["callback_probe", None])
+                n2["stack_exiting_running"] = True
+                n2["exit_by"] = rng.choice(["fallthrough", "exception"])
+                out.append({"k": "tree", "node": n2})
         return out
 
     def run_real(self, case):
@@ -333,7 +352,8 @@ class C09(PropCheck):
         b = Builder()
         root = b.build(node)
         exiting = node.get("exiting", False)
-        stack_exiting = node.get("stack_exiting", False)
+        running = node.get("stack_exiting_running", False)
+        stack_exiting = node.get("stack_exiting", False) or running
 
         if node["async"]:
             async def holder():
@@ -348,9 +368,28 @@ class C09(PropCheck):
                     await trap()
 
         co = holder()
-        co.send(None)
+        if running:
+            b.on_probe = lambda: stackscope.extract(co)
+            import contextlib as _cl
+            import io as _io
+
+            try:
+                with _cl.redirect_stdout(_io.StringIO()):       # (a pushed `print` is called when the stack unwinds)
+                    co.send(None)
+            except Exception:
+                pass      # the probe ran first (last registered, first called); what the other registrations do while unwinding is theirs
+            if not hasattr(b, "probe_result"):
+                self._probs = ["the probing callback never ran"]
+                return "?"
+        else:
+            co.send(None)
+        if case.get("mode") == "referents":
+            stackscope.lowlevel.set_trickery_enabled(False)
         try:
-            s = stackscope.extract(co)
+            try:
+                s = b.probe_result if running else stackscope.extract(co)
+            finally:
+                stackscope.lowlevel.set_trickery_enabled(None)
             f0 = s.frames[0]
             probs = []
             if s.error is not None:
